@@ -18,9 +18,7 @@ Local Open Scope Z_scope.
     powers of two, the 16-, 22-, 32- and 64-bit limits); three operands from a small set - on the
     full core, and on the reduced core for lds/sts (for the other mnemonics on the reduced core:
     the sub-window [window_small], see [window_reduced]).  The sweep is exhaustive over that window and kernel-checked.
-    What is NOT proved here: the same for operand values outside the window (see DESIGN.md, C04:
-    there the claim rests on the range lemma C04_guards below, on C03_unreachable for relative
-    operands and on the correspondence run). *)
+    Operand VALUES outside the window are covered by the unbounded theorem [C04_values_in_range] below. *)
 Theorem C04_window_full : forall name ws,
   In name all_names -> In ws window -> sound_at Full name ws = true.
 Proof. exact window_sound_full. Qed.
@@ -38,6 +36,25 @@ Theorem C04_guards : forall (v : Z),
   ((v < 0 \/ 7 < v) -> get_bit_index (Ok v) = Err None).
 Proof. exact guards_reject. Qed.
 Print Assumptions C04_guards.
+
+(** UNBOUNDED in the operand values (Proofs/RangeProofs.v): for every operation, every operand list, every program
+    counter and ALL values in Z - whatever the encoder accepts has every value operand inside the range of its field
+    kind in the ISA table: 8-bit immediates -128..255, unsigned fields 0..2^bits-1 (bit numbers, I/O addresses,
+    adiw/sbiw constants), relative targets within -2^(bits-1)..2^(bits-1)-1 words of the next instruction, jmp/call
+    addresses 0..2^22-1, lds/sts addresses 0..65535 (0x40..0xBF on the reduced core); and a displacement written
+    with ld/st/ldd/std is on Y or Z and within 0..63.  [val_kinds] is checked against every row of Spec/Isa.v
+    ([C04_kinds_from_table]).  Together with the exhaustive window (all registers in every position, all kinds and
+    counts of operands) nothing out of range is ever accepted; that an accepted in-range operand list gets exactly
+    the table's encoding is C01. *)
+Require Import AvraV.Proofs.RangeProofs.
+Theorem C04_values_in_range : forall fuel c op args pc bs, process fuel c op args pc = Ok bs ->
+  range_ok (is_avr8l (dev c)) op (map (view_of fuel c) args) pc.
+Proof. exact process_range. Qed.
+Print Assumptions C04_values_in_range.
+Theorem C04_displacement_in_range : forall a op vs pc bs, process_v a op vs pc = Ok bs -> disp_ok op vs.
+Proof. intros a op vs pc bs H. exact (ok_then_use _ _ _ (process_v_disp a op vs pc) H). Qed.
+Theorem C04_kinds_from_table : table_matches = true.
+Proof. exact kinds_are_the_tables. Qed.
 
 (** Converse direction (from C01): everything the ISA allows is accepted with its exact encoding, so
     acceptance and legality coincide on the window. *)
